@@ -213,6 +213,45 @@ theorem aug_leaves_other_holders (s : St) (x y w : Nat) (hx : s.obj x < s.heap.l
     rw [this]
     simp [List.getD_eq_getElem?_getD]
 
+/-! ### results are fresh objects
+
+"Operands are never modified" also has to survive what the caller does with the RESULT: if `a - b` handed back one of its operands
+(say, when `b` is all zero), updating the result in place later would change that operand.  In the model every statement with a
+result allocates (`step` → `bindNew`); the correspondence compares object identities statement by statement (programs) and the
+oracle checks `is not` + mutate-the-result on the real objects, all-zero operands included. -/
+
+/-- **every result is a fresh object**: a statement with a result allocates exactly one object, its id is the first id that did
+not exist before, and the result variable is bound to it - whatever the operand VALUES are (no special case for zero) -/
+theorem result_is_fresh (s : St) (st : Stmt) (d : Nat) (h : resultVar st = some d) (hd : d < s.env.length) :
+    (step s st).obj d = s.heap.length ∧ (step s st).heap.length = s.heap.length + 1 := by
+  cases st with
+  | bin isAdd d' x y =>
+    simp only [resultVar, Option.some.injEq] at h; subst h
+    simp [step, St.bindNew, St.obj, List.getD_eq_getElem?_getD, hd]
+  | aug isAdd x y =>
+    simp only [resultVar, Option.some.injEq] at h; subst h
+    cases isAdd <;> simp [step, iaddInPlace, isubInPlace, St.bindNew, St.obj, List.getD_eq_getElem?_getD, hd]
+  | free d' t a =>
+    simp only [resultVar, Option.some.injEq] at h; subst h
+    simp [step, St.bindNew, St.obj, List.getD_eq_getElem?_getD, hd]
+  | alias d' x => simp [resultVar] at h
+
+/-- ... so the result is none of the objects that existed: not an operand, not anything another variable holds -/
+theorem result_aliases_nothing (s : St) (st : Stmt) (d v : Nat) (h : resultVar st = some d) (hd : d < s.env.length)
+    (hv : s.obj v < s.heap.length) : (step s st).obj d ≠ s.obj v := by
+  rw [(result_is_fresh s st d h hd).1]; omega
+
+/-- ... and whatever is done with the result afterwards (any further statements), every object a variable held before the
+statement - the operands in particular - keeps its value -/
+theorem operands_survive_result_updates (s : St) (st : Stmt) (p : List Stmt) (v : Nat) (hv : s.obj v < s.heap.length) :
+    (run p (step s st)).heap[s.obj v]? = s.heap[s.obj v]? :=
+  object_value_stable (st :: p) s (s.obj v) hv
+
+-- non-vacuity: `r = a - z` with `z` all zero, then `r -= a`: r is object 2 (new), `a` (object 0) still has its value
+example : let s : St := { heap := [ofList [8], zero], env := [0, 1, 0] }
+    resultVar (.bin false 2 0 1) = some 2 ∧ 2 < s.env.length ∧ s.obj 0 < s.heap.length ∧ (step s (.bin false 2 0 1)).obj 2 = 2 ∧
+    ((run [.aug false 2 0] (step s (.bin false 2 0 1))).heap[0]?).map toList = some (toList (ofList [8])) := by decide
+
 /-! ### a result with a negative field is representable and printable
 
 Subtraction is a total function on capacities (no guard, no clamp): `sub_negative_fields` above says which fields of the result
